@@ -80,39 +80,91 @@ impl<T> SpscRing<T> {
 
     #[inline]
     pub fn is_empty(&self) -> bool {
+        #[cfg(rustrtc_verif)]
+        crate::verif::sched("empty");
         self.head.load(Ordering::Relaxed) == self.tail.load(Ordering::Relaxed)
     }
 
     #[inline]
     pub fn push(&self, value: T) -> Result<(), T> {
+        #[cfg(rustrtc_verif)]
+        crate::verif::sched("push_lt");
         let tail = self.tail.load(Ordering::Relaxed);
+        #[cfg(rustrtc_verif)]
+        crate::verif::sched("push_lh");
         let head = self.head.load(Ordering::Acquire);
         if tail.wrapping_sub(head) >= self.capacity {
             return Err(value);
         }
 
         let idx = tail % self.capacity;
+        #[cfg(rustrtc_verif)]
+        verif_window("w", idx, head, tail);
+        #[cfg(rustrtc_verif)]
+        crate::verif::sched("push_w");
         // Safety: producer is the only writer for this slot, and slot is empty because queue isn't full.
         unsafe {
             (*self.buffer[idx].get()).write(value);
         }
+        #[cfg(rustrtc_verif)]
+        crate::verif::sched("push_st");
         self.tail.store(tail.wrapping_add(1), Ordering::Release);
         Ok(())
     }
 
     #[inline]
     pub fn pop(&self) -> Option<T> {
+        #[cfg(rustrtc_verif)]
+        crate::verif::sched("pop_lh");
         let head = self.head.load(Ordering::Relaxed);
+        #[cfg(rustrtc_verif)]
+        crate::verif::sched("pop_lt");
         let tail = self.tail.load(Ordering::Acquire);
         if head == tail {
             return None;
         }
 
         let idx = head % self.capacity;
+        #[cfg(rustrtc_verif)]
+        verif_window("r", idx, head, tail);
+        #[cfg(rustrtc_verif)]
+        crate::verif::sched("pop_r");
         // Safety: consumer is the only reader for this slot, and slot is initialized because queue isn't empty.
         let value = unsafe { (*self.buffer[idx].get()).assume_init_read() };
+        #[cfg(rustrtc_verif)]
+        crate::verif::sched("pop_sh");
         self.head.store(head.wrapping_add(1), Ordering::Release);
         Some(value)
+    }
+}
+
+/// Verification hooks (compiled only with `--cfg rustrtc_verif`).
+///
+/// `push`/`pop`/`is_empty` carry one `crate::verif::sched(label)` point in front of every
+/// shared-memory access, so a test harness can execute an exact interleaving. Between the
+/// decision "not full"/"not empty" and the publishing store the caller owns slot `idx`;
+/// `verif_window` logs that reservation (kind "w" = writer, "r" = reader) with the loaded
+/// indices so the harness can see two owners of one slot.
+#[cfg(rustrtc_verif)]
+fn verif_window(kind: &'static str, idx: usize, head: usize, tail: usize) {
+    if crate::verif::enabled() {
+        crate::verif::emit(
+            "ring",
+            "",
+            "window",
+            serde_json::json!({"kind": kind, "idx": idx, "head": head, "tail": tail}),
+        );
+    }
+}
+
+#[cfg(rustrtc_verif)]
+impl<T> SpscRing<T> {
+    /// Current `(head, tail)` (relaxed loads; read-only).
+    pub fn verif_head_tail(&self) -> (usize, usize) {
+        (
+            self.head.load(Ordering::Relaxed),
+            self.tail.load(Ordering::Relaxed),
+        )
     }
 }
 
